@@ -177,7 +177,13 @@ func run(t *testing.T, sc *Scenario, wd *vc.Watchdog) (res runResult) {
 				l.Add("E", "approve", int(ep.Conn.VerifState()), false, "")
 				ep.P.SetPairedUser(true)
 				call("approve", func() { ep.Conn.ApprovePendingHandshake() })
-			case "cancel":
+			case "cancel", "approve-cancel":
+				if st.Op == "approve-cancel" {
+					// the user registers the SKI and withdraws that right away
+					l.Add("E", "approve", int(ep.Conn.VerifState()), false, "")
+					ep.P.SetPairedUser(true)
+					call("approve", func() { ep.Conn.ApprovePendingHandshake() })
+				}
 				l.Add("E", "cancel", int(ep.Conn.VerifState()), false, "")
 				call("cancel", func() { ep.Conn.AbortPendingHandshake() })
 				ep.P.SetPairedUser(false)
@@ -267,8 +273,10 @@ func randomStep(r *vc.Rand, alpha []simkit.Input) Step {
 		st.Op, st.D = "sleep", vc.Pick(r, sleeps)
 	case x < 92:
 		st.Op = "approve"
-	case x < 94:
+	case x < 93:
 		st.Op = "cancel"
+	case x < 94:
+		st.Op = "approve-cancel"
 	case x < 96:
 		st.Op = "terr"
 	case x < 97:
@@ -291,7 +299,7 @@ var peerIDs = []string{`"REMOTE-SHIP-ID"`, `"OTHER-ID"`, `""`, "-", "5", "null",
 // opsAlphabet are the non-message inputs of the systematic part.
 func opsAlphabet() []Step {
 	var out []Step
-	for _, op := range []string{"approve", "cancel", "terr", "disconnect", "unregister", "data", "send"} {
+	for _, op := range []string{"approve", "cancel", "approve-cancel", "terr", "disconnect", "unregister", "data", "send"} {
 		out = append(out, Step{Op: op, Settle: true})
 	}
 	for _, d := range sleeps {
@@ -353,6 +361,13 @@ func (sp *sysSpace) build(idx int, r *vc.Rand) *Scenario {
 		} else {
 			sc.Steps = append(sc.Steps, sp.ops[c.input-len(sp.alpha)])
 		}
+	}
+	if r.Chance(1, 3) {
+		// a peer that simply carries on with the handshake afterwards
+		for i := 0; i < 9; i++ {
+			sc.Steps = append(sc.Steps, Step{Op: "coop", Settle: true})
+		}
+		return sc
 	}
 	for i := 0; i < r.Intn(6); i++ {
 		sc.Steps = append(sc.Steps, randomStep(r, sp.alpha))
